@@ -40,9 +40,7 @@ def record(**kw):
 
 def helper(y):
     t = {tag}
-    if y > 2:
-        return y * 2 + G
-    return y + G
+    return y * 2 + G
 
 
 def make(k, dv):
@@ -50,20 +48,15 @@ def make(k, dv):
         if x > k:
             r = x - k + G
         else:
-            r = k - x + G
-        n = 0
-        while n < {loops}:
-            r = r + 1
-            n = n + 1
+            r = k - x + G + {loops}
         return ({tag}, r, k, G, d, kw)
     return fn
 
 
 def plain(x, d=7):
+    r = G - x
     if x > 0:
         r = x + G
-    else:
-        r = G - x
     return ({tag}, r, d, helper(x))
 
 
